@@ -46,10 +46,14 @@ type spec struct {
 	storm   bool // a reply with interval <= 0 is scripted while the torrent needs no peers: cap the announces
 	gate    string // "open" | "read": storage operations of that kind block until the "release" step (holds Allocating / Verifying)
 	addFirst bool  // AddTracker before the torrent is started (state Stopped)
+	cond    func() bool // step "waitcond"
 	rtx     bool   // retransmission family: three torrents on one UDP tracker (runRtx)
 }
 
 const stormCap = 150
+
+// scenario families of genSpecs (i % nFamilies); family 13 (completefail) is enabled with -families 14
+var nFamilies = 13
 
 func pick(rng *rand.Rand, xs []*int64) *int64 { return xs[rng.Intn(len(xs))] }
 
@@ -83,10 +87,10 @@ func genSpecs(seed int64, n int, tier string) []spec {
 	}
 	for len(out) < n {
 		i := len(out)
-		switch i % 13 {
+		switch i % nFamilies {
 		case 10, 11: // Torrent.AddTracker in every torrent state: one announcer per tracker per run, whenever the tracker arrives
 			states := []string{"stopped", "allocating", "verifying", "downloading", "seeding", "stopping"}
-			st := states[(2*(i/13)+(i%13-10))%6]
+			st := states[(2*(i/nFamilies)+(i%nFamilies-10))%6]
 			rs := []annh.Rep{okRep(vh.I64(1), nil)}
 			sp := spec{kind: "addtracker-" + st, cmin: 800, size: 40000,
 				trk: []tspec{{udp: rng.Intn(2) == 0, tier: 0, plan: planSeq(rs)}, {udp: rng.Intn(2) == 0, tier: 1, plan: planSeq(rs), late: true}}}
@@ -112,6 +116,41 @@ func genSpecs(seed int64, n int, tier string) []spec {
 			add(sp)
 		case 12: // BEP 15 retransmission: the tracker ignores the first datagram of torrent 1 while two other torrents keep announcing
 			add(spec{kind: "rtx", cmin: 800, size: 40000, rtx: true})
+		case 13: // the download completes during the run and the announce that carries "completed" ENDS WITHOUT AN ACCEPTED REPLY
+			// (failure reason / undecodable reply / reply lost: HTTP time-out / HTTP 500 / UDP error packet): the tracker has seen
+			// (and may have counted) the event, so the retry after the error back-off (2.5-7.5 s, real time) carries no event
+			r := i/nFamilies + int(seed%7)
+			udp := r%2 == 1
+			bads := []string{"fail", "garbage", "timeout", "http500"}
+			if udp {
+				bads = []string{"fail", "garbage", "failbenc"}
+			}
+			bad := bads[(r/2)%len(bads)]
+			tier2 := (r/2)%3 == 2 // a two-member tier: the retry goes to the next member (still no second "completed")
+			var nCompleted, nAfter atomic.Int64 // announces with "completed" / announces that arrived after the first of them
+			plan := func(n int, q vh.AnnReq) annh.Rep {
+				if nCompleted.Load() > 0 {
+					nAfter.Add(1)
+				}
+				if q.Event != "completed" {
+					return okRep(vh.I64(2), nil)
+				}
+				nCompleted.Add(1)
+				switch bad {
+				case "http500":
+					return annh.Rep{Kind: "garbage", Up: true, Status: 500}
+				case "failbenc":
+					return annh.Rep{Kind: "fail", Up: true, Msg: string(vh.Enc(vh.Dict{"failure reason": "database is busy"}))}
+				}
+				return annh.Rep{Kind: bad, Up: true}
+			}
+			trk := []tspec{{udp: udp, tier: 0, plan: plan}}
+			if tier2 {
+				trk = append(trk, tspec{udp: udp, tier: 0, plan: plan})
+			}
+			add(spec{kind: "completefail", cmin: 800, size: 40000 + int64(rng.Intn(3))*16384, trk: trk,
+				steps: []step{{op: "sleep", ms: 150 + rng.Intn(300)}, {op: "seed"}, {op: "waitcond", ms: 20000}, {op: "sleep", ms: 300}, {op: "stop"}},
+				cond: func() bool { return nAfter.Load() > 0 }})
 		case 0, 1: // idle leecher (needs peers: the min interval governs), HTTP + UDP, arbitrary interval values
 			var h, u []annh.Rep
 			for j := 0; j < 6; j++ {
@@ -365,6 +404,8 @@ func run(sp spec, root string, seed int64) *annh.Sc {
 				}
 				return tot >= int64(st.n)
 			})
+		case "waitcond":
+			annh.WaitUntil(time.Duration(st.ms)*time.Millisecond, sp.cond)
 		case "need":
 			sc.Line("need", map[string]any{"t": 1})
 			tr.Announce()
@@ -565,6 +606,7 @@ func main() {
 	par := flag.Int("par", 10, "parallel scenarios")
 	root := flag.String("root", "", "scratch directory")
 	only := flag.String("only", "", "run only scenarios of this kind (development)")
+	flag.IntVar(&nFamilies, "families", 13, "scenario families (14 = with the completefail family)")
 	flag.Parse()
 	torrent.DisableLogging()
 	if *root == "" {
